@@ -237,7 +237,14 @@ impl Printer {
                 Node::Error { tag, vars } => {
                     self.lines.insert(*tag, self.line + 1);
                     let pre = if self.cjk && !self.sass { "$_cjk: \"日本語テキストの説明です、とても長い\"; " } else { "" };
-                    self.stmt(indent, &format!("{}@error \"{}\"", pre, Self::msg("e", *tag, vars)));
+                    let m = Self::msg("e", *tag, vars);
+                    // the value of @error is reported *inspected*: strings keep their quotes, also inside lists and maps
+                    let value = match tag % 3 {
+                        0 => format!("\"{}\"", m),
+                        1 => format!("\"{}\", \"b c\"", m),
+                        _ => format!("(k: \"{}\")", m),
+                    };
+                    self.stmt(indent, &format!("{}@error {}", pre, value));
                 }
                 Node::For { var, lo, hi, inclusive, body } => {
                     self.open(indent, &format!("@for ${} from {} {} {}", var, lo, if *inclusive { "through" } else { "to" }, hi));
@@ -350,7 +357,13 @@ impl<'a> Exec<'a> {
                 Node::Debug { tag, vars } => self.out.push(Expected { kind: "debug".into(), file: self.files[fi].path.clone(), line: self.lines[fi][tag], msg: Self::msg("d", *tag, vars, env) }),
                 Node::Warn { tag, vars } => self.out.push(Expected { kind: "warn".into(), file: self.files[fi].path.clone(), line: self.lines[fi][tag], msg: Self::msg("w", *tag, vars, env) }),
                 Node::Error { tag, vars } => {
-                    self.error = Some(Expected { kind: "error".into(), file: self.files[fi].path.clone(), line: self.lines[fi][tag], msg: format!("\"{}\"", Self::msg("e", *tag, vars, env)) });
+                    let m = Self::msg("e", *tag, vars, env);
+                    let inspected = match tag % 3 {
+                        0 => format!("\"{}\"", m),
+                        1 => format!("\"{}\", \"b c\"", m),
+                        _ => format!("(k: \"{}\")", m),
+                    };
+                    self.error = Some(Expected { kind: "error".into(), file: self.files[fi].path.clone(), line: self.lines[fi][tag], msg: inspected });
                     return false;
                 }
                 Node::For { var, lo, hi, inclusive, body } => {
